@@ -54,6 +54,43 @@ theorem specRows_sendT_ge (st : EcuState) (c : Nat) (h : List Exchange) :
       · simp at hr
     · have := ih _ _ r hr; omega
 
+/-! ### the writer -/
+
+theorem Writer.step_all {α : Type} (w : Writer α) (c : WChoice) : (w.step c).all = w.all := by
+  cases c <;> simp only [Writer.step, Writer.all]
+  · split
+    · next r q h1 h2 => simp [h1, h2]
+    · rfl
+  · split
+    · next r h1 => simp [h1, List.append_assoc]
+    · rfl
+  · split <;> rfl
+  · split <;> rfl
+
+theorem Writer.put_all {α : Type} (w : Writer α) (r : α) : (w.put r).all = w.all ++ [r] := by
+  simp [Writer.put, Writer.all, List.append_assoc]
+
+/-- `join()` accounting: the counter of unfinished tasks is the number of rows queued or in flight -/
+def Writer.Counted {α : Type} (w : Writer α) : Prop := w.unfinished = w.queue.length + w.inflight.toList.length
+
+theorem Writer.Counted.step {α : Type} {w : Writer α} (hc : w.Counted) (c : WChoice) : (w.step c).Counted := by
+  unfold Writer.Counted at *
+  cases c <;> simp only [Writer.step]
+  · split
+    · next r q h1 h2 => simp_all <;> omega
+    · exact hc
+  · split
+    · next r h1 => simp_all
+    · exact hc
+  · split <;> exact hc
+  · split <;> exact hc
+
+theorem Writer.Counted.put {α : Type} {w : Writer α} (hc : w.Counted) (r : α) : (w.put r).Counted := by
+  unfold Writer.Counted at *
+  simp [Writer.put, hc]; omega
+
+theorem Writer.empty_all {α : Type} : (Writer.empty : Writer α).all = [] := rfl
+
 /-! ### draining the queue -/
 
 theorem drainQueue_eq (db q : List Row) : drainQueue db q = db ++ q := by
@@ -61,23 +98,23 @@ theorem drainQueue_eq (db q : List Row) : drainQueue db q = db ++ q := by
   | nil => simp [drainQueue]
   | cons r q ih => simp [drainQueue, ih]
 
-theorem afterDisconnect_eq (s : Sys) : afterDisconnect s = s.db ++ s.inflight.toList ++ s.queue := by
+theorem afterDisconnect_eq (s : Sys) : afterDisconnect s = s.toWriter.all := by
   unfold afterDisconnect
   cases h : s.inflight with
-  | none => simp [drainQueue_eq]
-  | some r => simp [step, h, drainQueue_eq]
+  | none => simp [drainQueue_eq, Writer.all, h]
+  | some r => simp [step, Writer.step, h, drainQueue_eq, Writer.all]
 
 /-! ### the invariant -/
 
 /-- committed ++ in flight ++ queued = the rows of the exchanges performed so far, in order; the client-side
     state and the clock are those of the specification fold -/
 structure Inv (s : Sys) : Prop where
-  rows : s.db ++ s.inflight.toList ++ s.queue = specRows .init 0 s.done
+  rows : s.toWriter.all = specRows .init 0 s.done
   ecu : s.ecu = specState .init s.done
   clock : s.clock = specClock 0 s.done
 
 theorem Inv.init (h : List Exchange) : Inv (Sys.init h) := by
-  constructor <;> simp [Sys.init, specRows, specState, specClock]
+  constructor <;> simp [Sys.init, specRows, specState, specClock, Writer.empty_all]
 
 theorem Inv.logStep {s : Sys} (hi : Inv s) (rest : List Exchange) (e : Exchange) :
     Inv (logStep { s with todo := rest } e) := by
@@ -86,8 +123,7 @@ theorem Inv.logStep {s : Sys} (hi : Inv s) (rest : List Exchange) (e : Exchange)
   by_cases himp : e.implicitOn
   · simp only [himp, if_true]
     constructor
-    · simp only [specRows_append, specRows_single, himp, if_true, ← hr, ← he, ← hc]
-      simp [List.append_assoc]
+    · simp only [specRows_append, specRows_single, himp, if_true, Writer.put_all, hr, ← he, ← hc]
     · simp [specState_append, specState, he]
     · simp [specClock_append, specClock, hc, Nat.add_assoc]
   · simp only [himp, Bool.false_eq_true, if_false]
@@ -97,78 +133,9 @@ theorem Inv.logStep {s : Sys} (hi : Inv s) (rest : List Exchange) (e : Exchange)
     · simp [specState_append, specState, he]
     · simp [specClock_append, specClock, hc, Nat.add_assoc]
 
-theorem Inv.step {s : Sys} (hi : Inv s) (c : Choice) (hc : c ≠ .retry) : Inv (step s c) := by
-  cases c with
-  | retry => exact absurd rfl hc
-  | prod =>
-    simp only [DbLog.step]
-    split
-    · exact hi
-    · split
-      · exact hi
-      · exact hi.logStep _ _
-  | cancelIn =>
-    simp only [DbLog.step]
-    split
-    · exact hi
-    · split
-      · exact ⟨hi.rows, hi.ecu, hi.clock⟩
-      · have := hi.logStep [] { (‹Exchange›) with out := Outcome.cancelled }
-        exact ⟨this.rows, this.ecu, this.clock⟩
-  | cancel => exact ⟨hi.rows, hi.ecu, hi.clock⟩
-  | get =>
-    simp only [DbLog.step]
-    split
-    · next r q h1 h2 =>
-      obtain ⟨hr, he, hc'⟩ := hi
-      exact ⟨by simpa [h1, h2] using hr, he, hc'⟩
-    · exact hi
-  | commit =>
-    simp only [DbLog.step]
-    split
-    · next r h1 =>
-      obtain ⟨hr, he, hc'⟩ := hi
-      exact ⟨by simpa [h1, List.append_assoc] using hr, he, hc'⟩
-    · exact hi
-
-theorem Inv.exec {s : Sys} (hi : Inv s) (sched : List Choice) (hr : Choice.retry ∉ sched) :
-    Inv (exec s sched) := by
-  induction sched generalizing s with
-  | nil => exact hi
-  | cons c cs ih =>
-    simp only [List.mem_cons, not_or] at hr
-    exact ih (hi.step c (fun h => hr.1 h.symm)) hr.2
-
-/-! ### the same invariant up to order, valid also under write failures that re-queue a row -/
-
-structure PInv (s : Sys) : Prop where
-  rows : (s.db ++ s.inflight.toList ++ s.queue).Perm (specRows .init 0 s.done)
-  ecu : s.ecu = specState .init s.done
-  clock : s.clock = specClock 0 s.done
-
-theorem PInv.init (h : List Exchange) : PInv (Sys.init h) := by
-  constructor <;> simp [Sys.init, specRows, specState, specClock]
-
-theorem PInv.logStep {s : Sys} (hi : PInv s) (rest : List Exchange) (e : Exchange) :
-    PInv (logStep { s with todo := rest } e) := by
-  obtain ⟨hr, he, hc⟩ := hi
-  unfold DbLog.logStep
-  by_cases himp : e.implicitOn
-  · simp only [himp, if_true]
-    constructor
-    · simp only [specRows_append, specRows_single, himp, if_true, ← he, ← hc]
-      have := hr.append_right [mkRow s.ecu (s.clock + e.dSend) (s.clock + e.dSend + e.dRecv) e]
-      simpa [List.append_assoc] using this
-    · simp [specState_append, specState, he]
-    · simp [specClock_append, specClock, hc, Nat.add_assoc]
-  · simp only [himp, Bool.false_eq_true, if_false]
-    constructor
-    · simp only [specRows_append, specRows_single, himp]
-      simpa using hr
-    · simp [specState_append, specState, he]
-    · simp [specClock_append, specClock, hc, Nat.add_assoc]
-
-theorem PInv.step {s : Sys} (hi : PInv s) (c : Choice) : PInv (step s c) := by
+/-- every scheduler choice preserves the invariant - write failures included: a failed `execute` or `commit` leaves the
+    row in flight, so it keeps its place -/
+theorem Inv.step {s : Sys} (hi : Inv s) (c : Choice) : Inv (step s c) := by
   cases c with
   | prod =>
     simp only [DbLog.step]
@@ -186,32 +153,12 @@ theorem PInv.step {s : Sys} (hi : PInv s) (c : Choice) : PInv (step s c) := by
       · have := hi.logStep [] { (‹Exchange›) with out := Outcome.cancelled }
         exact ⟨this.rows, this.ecu, this.clock⟩
   | cancel => exact ⟨hi.rows, hi.ecu, hi.clock⟩
-  | get =>
-    simp only [DbLog.step]
-    split
-    · next r q h1 h2 =>
-      obtain ⟨hr, he, hc'⟩ := hi
-      exact ⟨by simpa [h1, h2] using hr, he, hc'⟩
-    · exact hi
-  | commit =>
-    simp only [DbLog.step]
-    split
-    · next r h1 =>
-      obtain ⟨hr, he, hc'⟩ := hi
-      exact ⟨by simpa [h1, List.append_assoc] using hr, he, hc'⟩
-    · exact hi
-  | retry =>
-    simp only [DbLog.step]
-    split
-    · next r h1 =>
-      obtain ⟨hr, he, hc'⟩ := hi
-      refine ⟨?_, he, hc'⟩
-      simp only [h1, Option.toList_some, Option.toList_none, List.append_nil, List.append_assoc] at hr ⊢
-      refine List.Perm.trans ?_ hr
-      exact List.Perm.append_left _ (List.perm_append_comm)
-    · exact hi
+  | get => exact ⟨by simpa [DbLog.step, Writer.step_all] using hi.rows, hi.ecu, hi.clock⟩
+  | commit => exact ⟨by simpa [DbLog.step, Writer.step_all] using hi.rows, hi.ecu, hi.clock⟩
+  | retry => exact ⟨by simpa [DbLog.step, Writer.step_all] using hi.rows, hi.ecu, hi.clock⟩
+  | commitFail => exact ⟨by simpa [DbLog.step, Writer.step_all] using hi.rows, hi.ecu, hi.clock⟩
 
-theorem PInv.exec {s : Sys} (hi : PInv s) (sched : List Choice) : PInv (exec s sched) := by
+theorem Inv.exec {s : Sys} (hi : Inv s) (sched : List Choice) : Inv (exec s sched) := by
   induction sched generalizing s with
   | nil => exact hi
   | cons c cs ih => exact ih (hi.step c)
@@ -281,21 +228,10 @@ theorem Prog.step {h : List Exchange} {s : Sys} (hp : Prog h s) (c : Choice) : P
     cases hs : s.stopped with
     | true => exact h2 hs
     | false => exact ⟨s.done, s.todo, (h1 hs).symm, Or.inl rfl⟩
-  | get =>
-    simp only [DbLog.step]
-    split
-    · exact ⟨h1, h2⟩
-    · exact ⟨h1, h2⟩
-  | commit =>
-    simp only [DbLog.step]
-    split
-    · exact ⟨h1, h2⟩
-    · exact ⟨h1, h2⟩
-  | retry =>
-    simp only [DbLog.step]
-    split
-    · exact ⟨h1, h2⟩
-    · exact ⟨h1, h2⟩
+  | get => exact ⟨h1, h2⟩
+  | commit => exact ⟨h1, h2⟩
+  | retry => exact ⟨h1, h2⟩
+  | commitFail => exact ⟨h1, h2⟩
 
 theorem Prog.exec {h : List Exchange} {s : Sys} (hp : Prog h s) (sched : List Choice) : Prog h (exec s sched) := by
   induction sched generalizing s with
@@ -312,10 +248,16 @@ theorem performed_prefix (h : List Exchange) (sched : List Choice) :
 
 /-! ### the `join()` counter -/
 
-def Counted (s : Sys) : Prop := s.unfinished = s.queue.length + s.inflight.toList.length
+def Counted (s : Sys) : Prop := s.toWriter.Counted
+
+theorem logStep_counted {s : Sys} (hc : Counted s) (e : Exchange) : Counted (logStep s e) := by
+  unfold Counted at *
+  unfold logStep
+  split
+  · exact hc.put _
+  · exact hc
 
 theorem Counted.step {s : Sys} (hc : Counted s) (c : Choice) : Counted (step s c) := by
-  unfold Counted at *
   cases c with
   | prod =>
     simp only [DbLog.step]
@@ -323,30 +265,19 @@ theorem Counted.step {s : Sys} (hc : Counted s) (c : Choice) : Counted (step s c
     · exact hc
     · split
       · exact hc
-      · unfold logStep; split <;> simp_all <;> omega
+      · next e rest ht => exact logStep_counted (s := { s with todo := rest }) hc e
   | cancelIn =>
     simp only [DbLog.step]
     split
     · exact hc
     · split
       · exact hc
-      · unfold logStep; split <;> simp_all <;> omega
+      · next e rest ht => exact logStep_counted (s := { s with todo := [] }) hc { e with out := Outcome.cancelled }
   | cancel => exact hc
-  | get =>
-    simp only [DbLog.step]
-    split
-    · next r q h1 h2 => simp_all <;> omega
-    · exact hc
-  | commit =>
-    simp only [DbLog.step]
-    split
-    · next r h1 => simp_all
-    · exact hc
-  | retry =>
-    simp only [DbLog.step]
-    split
-    · next r h1 => simp_all
-    · exact hc
+  | get => exact Writer.Counted.step hc .get
+  | commit => exact Writer.Counted.step hc .commit
+  | retry => exact Writer.Counted.step hc .retry
+  | commitFail => exact Writer.Counted.step hc .commitFail
 
 theorem Counted.exec {s : Sys} (hc : Counted s) (sched : List Choice) : Counted (exec s sched) := by
   induction sched generalizing s with
